@@ -24,7 +24,7 @@ class Fn:
                  throws=False, propagate=(), dummy_ret=None, must=None,
                  call_index=(), lambda_marker=None, pnames=None, static_fn=True,
                  byref_return=False, extra_pre="", extra_post="", kind="function",
-                 expr_rx=None, expr_in_header=False, drop=(), subst_post=()):
+                 expr_rx=None, expr_in_header=False, drop=(), subst_post=(), ctor=False):
         self.__dict__.update(locals())
         del self.__dict__["self"]
         self.must = dict(must or {})
@@ -54,6 +54,10 @@ def emit_fn(fn):
 
     if fn.kind == "expr":
         body = "return " + body + ";"
+    if fn.ctor:
+        init, n = X.ctor_init_statements(loc.header)
+        note("R21_ctor_init", n)
+        body = "\n/* R21: mem-initialisers */\n" + init + body
 
     body, hoisted = X.r_hoist_statics(body, fn.key)
     note("R18_hoist_static", len(hoisted))
@@ -117,6 +121,11 @@ def emit_fn(fn):
     body, n = X.r_index2(body, sorted(fn.arrays2)); note("R19_index2", n)
     body, n = X.r_index(body, sorted(arrays)); note("R19_index", n)
     body, n = X.r_refparam(body, sorted(refs)); note("R11_refparam", n)
+    for nm in sorted(refs):   # address of a reference parameter is the pointer itself
+        body, n = re.subn(r"&\s*" + re.escape(nm) + r"\b(?!\s*(->|\.|\[))", nm, body); note("R11_refparam_addr", n)
+    if fn.method:
+        body, n = re.subn(r"\*\s*this\b", "(*self)", body); note("R11_this", n)
+        body, n = re.subn(r"\bthis\b", "self", body); note("R11_this", n)
     body, n = X.r_members(body, fn.members); note("R11_member", n)
     if fn.propagate:
         body, n = X.r_propagate(body, fn.propagate); note("R14_propagate", n)
